@@ -104,6 +104,7 @@ PROPS["C06"] = {
 
 PROPS["C11"] = {
     "units": [
+        plain("regress", "rtpconn", "TestVerif_C11_Regress_.*"),
         rapid("permission-machine", "rtpconn", "TestVerif_C11_PermissionMachine", 500, 4000),
     ],
     "technique": "model-based stateful property testing (rapid) of the signalling state machine",
@@ -137,6 +138,7 @@ PROPS["C10"] = {
 
 PROPS["C08"] = {
     "units": [
+        plain("regress", "rtpconn", "TestVerif_C08_Regress_.*"),
         rapid("decision-procedure", "group", "TestVerif_C08_DecisionProcedure", 4000, 30000),
         rapid("makepassword-roundtrip", "galenectl", "TestVerif_C08_MakePasswordRoundTrip", 1200, 8000),
         rapid("login-machine", "rtpconn", "TestVerif_C08_LoginMachine", 250, 2000),
@@ -160,6 +162,9 @@ PROPS["C09"] = {
 
 PROPS["C12"] = {
     "units": [
+        plain("regress-codecs", "codecs", "TestVerif_C12_Regress_.*"),
+        plain("regress-signalling", "rtpconn", "TestVerif_C12_Regress_.*"),
+        plain("regress-http", "webserver", "TestVerif_C12_Regress_.*"),
         rapid("codecs-bytes", "codecs", "TestVerif_C12_CodecsBytes", 20000, 150000),
         fuzz("codecs-gofuzz", "codecs", "FuzzVerif_C12_Codecs", 90),
         rapid("sdpfrag", "sdpfrag", "TestVerif_C12_SdpFrag", 3000, 20000),
@@ -210,6 +215,16 @@ PROPS["C16"] = {
     "technique": "model-based stateful property testing (rapid) with a fresh-reader differential, racing conditional editors, crash-point enumeration with strace fault injection",
     "assumptions": ["process crashes at syscall boundaries only; the token writer does not fsync, durability across power loss is not claimed",
                     "equal-size-equal-mtime versions are indistinguishable to the store; they are counted, not judged"],
+}
+
+PROPS["C20"] = {
+    "units": [
+        plain("regress", "diskwriter", "TestVerif_C20_Regress_.*"),
+        rapid("recording", "diskwriter", "TestVerif_C20_Recording", 600, 5000),
+    ],
+    "technique": "model-based property testing (rapid): recordings parsed back with an EBML reader and compared with the frames a model publisher sent",
+    "assumptions": ["diskwriter is driven through the public conn interfaces with a fake publisher; the packet cache behind it is the real one",
+                    "the wall-clock based time origin (no sender report) is only checked for monotonicity"],
 }
 
 NOT_APPLICABLE = {}
